@@ -36,12 +36,33 @@ type vLink struct {
 	// slowData: a DATA packet that is not a ping spends this long inside the
 	// transport's send function (a slow, uninterruptible stream write)
 	slowData time.Duration
+	// delay fate (3): the packet, and with it everything behind it in this
+	// direction (FIFO), reaches the receiver only delayDur later
+	delayDur   time.Duration
+	delayUntil time.Time
+	dues       []time.Time
+	fates      int // highest fate value offered (2: deliver/drop/duplicate, 3: + delay)
+	// skip: once armed, this many packets pass untouched before the fault
+	// budget starts (moves the fault window into the run: retransmissions,
+	// acknowledgements of later packets, pings)
+	skip int
 	// ghost log of everything put on the wire (for monitors)
 	wire [][]byte
 }
 
 func newLink(name string, budget int) *vLink {
-	return &vLink{name: name, ch: make(chan []byte, 256), budget: budget}
+	return &vLink{name: name, ch: make(chan []byte, 256), budget: budget, fates: 2, delayDur: 8 * time.Second}
+}
+
+// push hands a packet to the receiving side (caller holds l.mu or is the only
+// user); it becomes visible to recv at its due time.
+func (l *vLink) push(b []byte) {
+	due := time.Now()
+	if l.delayUntil.After(due) {
+		due = l.delayUntil
+	}
+	l.dues = append(l.dues, due)
+	l.ch <- b
 }
 
 func (l *vLink) send(ctx context.Context, b []byte) error {
@@ -79,9 +100,11 @@ func (l *vLink) send(ctx context.Context, b []byte) error {
 		}
 		l.armedSent++
 	}
-	if l.armed && l.budget > 0 {
+	if l.armed && l.skip > 0 {
+		l.skip--
+	} else if l.armed && l.budget > 0 {
 		l.budget--
-		fate = vIntRange("fate_"+l.name, 0, 2)
+		fate = vIntRange("fate_"+l.name, 0, l.fates)
 	}
 	switch fate {
 	case 1: // drop
@@ -90,9 +113,12 @@ func (l *vLink) send(ctx context.Context, b []byte) error {
 	case 2: // duplicate in place
 		l.dups++
 		l.faulty++
-		l.ch <- b
+		l.push(b)
+	case 3: // delay (in order)
+		l.faulty++
+		l.delayUntil = time.Now().Add(l.delayDur)
 	}
-	l.ch <- b
+	l.push(b)
 	return nil
 }
 
@@ -102,7 +128,7 @@ func (l *vLink) release() {
 	defer l.mu.Unlock()
 	l.hold = false
 	for _, b := range l.held {
-		l.ch <- b
+		l.push(b)
 	}
 	l.held = nil
 }
@@ -110,6 +136,16 @@ func (l *vLink) release() {
 func (l *vLink) recv(ctx context.Context) ([]byte, error) {
 	select {
 	case b := <-l.ch:
+		l.mu.Lock()
+		var due time.Time
+		if len(l.dues) > 0 {
+			due = l.dues[0]
+			l.dues = l.dues[1:]
+		}
+		l.mu.Unlock()
+		if d := time.Until(due); d > 0 {
+			time.Sleep(d)
+		}
 		if l.lat > 0 {
 			time.Sleep(l.lat)
 		}
@@ -139,6 +175,25 @@ func vConnect(n uint8, budget int, opts ...TimeoutOptions) *vPair {
 	}()
 	go func() {
 		p.cli, p.cliErr = NewClientConn(p.ctx, n, p.c2s.send, p.s2c.recv, WithTimeoutOptions(opts...))
+		done <- struct{}{}
+	}()
+	<-done
+	<-done
+	return p
+}
+
+// vConnectChunk: like vConnect, with a maximum chunk size (0 = none) on both
+// parties.
+func vConnectChunk(n uint8, budget, chunk int, opts ...TimeoutOptions) *vPair {
+	p := &vPair{c2s: newLink("c2s", budget), s2c: newLink("s2c", budget)}
+	p.ctx, p.cancel = context.WithCancel(context.Background())
+	done := make(chan struct{}, 2)
+	go func() {
+		p.srv, p.srvErr = NewServerConn(p.ctx, p.s2c.send, p.c2s.recv, WithTimeoutOptions(opts...), WithMaxSendSize(chunk))
+		done <- struct{}{}
+	}()
+	go func() {
+		p.cli, p.cliErr = NewClientConn(p.ctx, n, p.c2s.send, p.s2c.recv, WithTimeoutOptions(opts...), WithMaxSendSize(chunk))
 		done <- struct{}{}
 	}()
 	<-done
@@ -245,5 +300,66 @@ func VH_C01_Sim() {
 	vAssert(vIsPrefix(rs, up) && len(rs) == k, "server did not receive exactly the client's messages in order")
 	vAssert(vIsPrefix(rc, down) && len(rc) == k, "client did not receive exactly the server's messages in order")
 	vAssert(<-errs == nil && <-errs == nil, "Send failed on an open connection")
+	p.shutdown()
+}
+
+// VH_C01_SimWide: the whole-endpoint run of VH_C01_Sim over a wider scenario
+// space: the fault window of each direction starts after a symbolic number of
+// untouched packets (so that it also hits retransmissions, acknowledgements of
+// later packets and pings), keep-alive on or off, static or adaptive timeouts,
+// optional latency, two-byte messages sent whole or as two one-byte chunks, and
+// a fourth packet fate: delay - the packet and everything behind it in that
+// direction arrives 8 s late (longer than the resend timeouts and the 5 s / 7 s
+// ping intervals), in order.
+// The statement only asks for the prefix property here (progress is C06): a
+// connection that keep-alive closed after losses may deliver less, never
+// something else.
+func VH_C01_SimWide() {
+	n := uint8(vIntRange("n", 1, vParam("maxn", 3)))
+	k := vParam("msgs", 2)
+	opts, keepalive := vOpts(vIntRange("opts", 0, vParam("maxopts", 3)))
+	chunk := vIntRange("chunk", vParam("minchunk", 0), 1)
+	p := vConnectChunk(n, vParam("faults", 2), chunk, opts...)
+	p.c2s.fates, p.s2c.fates = vParam("fates", 3), vParam("fates", 3)
+	vAssert(p.cliErr == nil && p.srvErr == nil, "clean handshake failed")
+	if p.cliErr != nil || p.srvErr != nil {
+		return
+	}
+	lat := time.Duration(vIntRange("latency_ms", 0, vParam("maxlat", 0))) * 300 * time.Millisecond
+	p.c2s.lat, p.s2c.lat = lat, lat
+	p.c2s.skip = vIntRange("skip_c2s", 0, vParam("maxskip", 2))
+	p.s2c.skip = vIntRange("skip_s2c", 0, vParam("maxskip", 2))
+	p.arm()
+	up, down := make([][]byte, k), make([][]byte, k)
+	for i := 0; i < k; i++ {
+		up[i], down[i] = vBytes("up", 2), vBytes("down", 2)
+	}
+	errs := make(chan error, 2)
+	gotS, gotC := make(chan [][]byte, 1), make(chan [][]byte, 1)
+	go vSender(p.cli, up, errs)
+	go vSender(p.srv, down, errs)
+	go vReceiver(p.srv, k, gotS)
+	go vReceiver(p.cli, k, gotC)
+	horizon := time.After(time.Duration(vParam("horizon_s", 600)) * time.Second)
+	var rs, rc [][]byte
+	for got := 0; got < 2; {
+		select {
+		case rs = <-gotS:
+			got++
+		case rc = <-gotC:
+			got++
+		case <-horizon:
+			vReach("wide-horizon")
+			vAssert(false, "messages not delivered within the horizon although the transport became reliable (silent stall)")
+			p.shutdown()
+			return
+		}
+	}
+	vReach("wide-delivered")
+	vAssert(vIsPrefix(rs, up), "server received something other than a prefix of the client's messages")
+	vAssert(vIsPrefix(rc, down), "client received something other than a prefix of the server's messages")
+	if len(rs) != k || len(rc) != k {
+		vAssert(keepalive && p.c2s.faulty+p.s2c.faulty > 0, "connection closed although keep-alive is off or nothing was lost")
+	}
 	p.shutdown()
 }
